@@ -2831,6 +2831,8 @@ def _formal_degrees(e, sym: str):
     """set of formal degrees in the symbol `sym` of the terms of e (None: not computable)"""
     if not any(isinstance(x, ast.Name) and x.id == sym for x in ast.walk(e)):
         return {0}
+    if any(isinstance(x, ast.Name) and x.id == "__unresolved__" for x in ast.walk(e)):
+        return {None}
     if isinstance(e, ast.Name):
         return {1}
     if isinstance(e, ast.Attribute) and e.attr in ("T", "real"):
@@ -2895,12 +2897,52 @@ def reaching_assign(fn: ast.FunctionDef, at: ast.stmt, name: str, pos=None):
     return None
 
 
+def resolve_reaching(fn: ast.FunctionDef, e: ast.expr, at: ast.stmt, keep=(), params=(), depth: int = 8, pos=None):
+    """`e` (read at statement `at`) with every local name replaced by the value of the assignment that reaches it, recursively
+    and flow-sensitively (`E = E / 2` takes the E before it).  A local without a single reaching assignment becomes the name
+    `__unresolved__`."""
+    import copy
+
+    pos = pos or _block_defs(fn)
+    assigned = {n_ for x in ast.walk(fn) if isinstance(x, (ast.Assign, ast.AugAssign, ast.For)) for n_ in (set().union(*[_target_names(t) for t in x.targets]) if isinstance(x, ast.Assign) else _target_names(x.target))}
+
+    # names whose value may depend on a kept symbol (flow-insensitive closure): only those matter when they cannot be resolved
+    tainted = set(keep)
+    changed = True
+    while changed:
+        changed = False
+        for x in ast.walk(fn):
+            if isinstance(x, (ast.Assign, ast.AugAssign)):
+                tg = set().union(*[_target_names(t) for t in x.targets]) if isinstance(x, ast.Assign) else _target_names(x.target)
+                if tg - tainted and any(isinstance(y, ast.Name) and y.id in tainted for y in ast.walk(x.value)):
+                    tainted |= tg
+                    changed = True
+
+    def go(expr, at_, d):
+        class T(ast.NodeTransformer):
+            def visit_Name(self, n):
+                if not isinstance(n.ctx, ast.Load) or n.id in keep or n.id in params or n.id not in assigned:
+                    return n
+                lost = ast.Name(id="__unresolved__", ctx=ast.Load()) if (n.id in tainted or not keep) else n
+                if d <= 0:
+                    return lost
+                st = reaching_assign(fn, at_, n.id, pos)
+                if st is None or len(st.targets) != 1 or not isinstance(st.targets[0], ast.Name):
+                    return lost
+                return go(copy.deepcopy(st.value), st, d - 1)
+
+            def visit_Lambda(self, n):
+                return n
+
+        return T().visit(copy.deepcopy(expr))
+
+    return go(e, at, depth)
+
+
 def error_quadratic(r: R, chk, qual: str, rule="ERROR-QUADRATIC"):
     """The function returns (T, E).  E = FF - GF^T T is the squared error only when T solves the free normal equations GG T = GF
     (T a pure product).  Where T carries an additive correction (interpolation constraints) GG T != GF, and E has to be the whole
     quadratic form FF - 2 T^T GF + T^T GG T: formally of degree 2 in T."""
-    from .common import expand_locals
-
     fi = r.prog.func(qual)
     fn = fi.node
     pos = _block_defs(fn)
@@ -2916,29 +2958,27 @@ def error_quadratic(r: R, chk, qual: str, rule="ERROR-QUADRATIC"):
         tn, en = names
         if tn is None or en is None:
             continue
-        # every definition of E that can reach this return
-        for st in ast.walk(fn):
-            if not (isinstance(st, ast.Assign) and len(st.targets) == 1 and isinstance(st.targets[0], ast.Name) and st.targets[0].id == en):
-                continue
-            tdef = reaching_assign(fn, st, tn, pos)
-            if tdef is None:
-                chk.note(f"{rule}: {qual}: no single definition of `{tn}` reaches `{seg(st, 40)}`: not decided")
-                continue
-            tex = expand_locals(fi, tdef.value)
-            additive = any(isinstance(x, ast.BinOp) and isinstance(x.op, (ast.Add, ast.Sub)) for x in ast.walk(tex))
-            n += 1
-            if not additive:
-                chk.ob(rule, f"{qual}: `{seg(st, 40)}` with the free minimiser `{seg(tdef, 30)}` (short form allowed)", True, loc=f"{fi.module}.py:{st.lineno}")
-                continue
-            ds = _formal_degrees(expand_locals(fi, st.value), tn)
-            if None in ds:
-                chk.note(f"{rule}: {qual}: the degree of `{seg(st.value, 40)}` in `{tn}` could not be computed: not decided")
-                continue
-            ok = 2 in ds
-            chk.ob(rule, f"{qual}: `{seg(st, 40)}` is the full quadratic form in the constrained `{tn}`", ok, loc=f"{fi.module}.py:{st.lineno}",
-                   detail="" if ok else f"{qual}: `{seg(st, 60)}` has no term of degree 2 in `{tn}` (degrees {sorted(ds)}), but `{seg(tdef, 50)}` is not the free minimiser: with the interpolation constraints GG·{tn} ≠ GF, so the short form is not the squared deviation — the error handed to the tolerance gate is too small (even negative) and an inexact removal is accepted",
-                   func=qual, construct=f"error not quadratic in the constrained {tn}")
-    chk.floor(rule, f"error expressions in {qual}", n, 2)
+        tdef = reaching_assign(fn, ret, tn, pos)
+        edef = reaching_assign(fn, ret, en, pos)
+        if tdef is None or edef is None:
+            chk.note(f"{rule}: {qual}: no single definition of `{tn}` / `{en}` reaches `{seg(ret, 40)}`: not decided")
+            continue
+        tex = resolve_reaching(fn, tdef.value, tdef, params=fi.params, pos=pos)
+        additive = any(isinstance(x, ast.BinOp) and isinstance(x.op, (ast.Add, ast.Sub)) for x in ast.walk(tex))
+        n += 1
+        if not additive:
+            chk.ob(rule, f"{qual}: `{seg(edef, 40)}` with the free minimiser `{seg(tdef, 30)}` (short form allowed)", True, loc=f"{fi.module}.py:{edef.lineno}")
+            continue
+        eex = resolve_reaching(fn, edef.value, edef, keep=(tn,), params=fi.params, pos=pos)
+        ds = _formal_degrees(eex, tn)
+        if None in ds:
+            chk.note(f"{rule}: {qual}: the degree of `{seg(edef.value, 40)}` in `{tn}` could not be computed: not decided")
+            continue
+        ok = 2 in ds
+        chk.ob(rule, f"{qual}: `{en}` returned by `{seg(ret, 40)}` is the full quadratic form in the constrained `{tn}`", ok, loc=f"{fi.module}.py:{edef.lineno}",
+               detail="" if ok else f"{qual}: `{seg(eex, 70)}` has no term of degree 2 in `{tn}` (degrees {sorted(ds)}), but `{seg(tdef, 50)}` is not the free minimiser: with the interpolation constraints GG·{tn} ≠ GF, so the short form is not the squared deviation — the error handed to the tolerance gate is too small (even negative) and an inexact removal is accepted",
+               func=qual, construct=f"error not quadratic in the constrained transformation")
+    chk.floor(rule, f"(T, E) returns of {qual}", n, 2)
     return n
 
 
@@ -2954,12 +2994,6 @@ def nodes_of_new(r: R, chk, quals: List[str], callee: str = "curves.BaseCurve.up
     n = 0
     for q in quals:
         fi = r.prog.func(q)
-        pos = _block_defs(fi.node)
-        stmts_of = {}
-        for st in ast.walk(fi.node):
-            if isinstance(st, ast.stmt):
-                for x in ast.walk(st):
-                    stmts_of.setdefault(id(x), st)
         for c in ast.walk(fi.node):
             if not (isinstance(c, ast.Call) and isinstance(c.func, ast.Attribute) and c.func.attr == cal.name and isinstance(c.func.value, ast.Name) and c.func.value.id == "self"):
                 continue
@@ -2969,24 +3003,57 @@ def nodes_of_new(r: R, chk, quals: List[str], callee: str = "curves.BaseCurve.up
             if kv is None or nd is None or not isinstance(kv, ast.Name):
                 continue
             n += 1
-            # statement holding the call (innermost)
+            # textual (depth-first) order of the statements: the inlined model view has no usable line numbers
+            order = {}
+
+            def number(stmts):
+                for st in stmts:
+                    order[id(st)] = len(order)
+                    for f in ("body", "orelse", "finalbody"):
+                        sub = getattr(st, f, None)
+                        if isinstance(sub, list):
+                            number([x for x in sub if isinstance(x, ast.stmt)])
+                    for h in getattr(st, "handlers", []) or []:
+                        number(h.body)
+
+            number(fi.node.body)
             holder = None
             for st in ast.walk(fi.node):
-                if isinstance(st, ast.stmt) and any(x is c for x in ast.walk(st)) and not any(isinstance(s2, ast.stmt) and s2 is not st and any(x is c for x in ast.walk(s2)) for s2 in ast.walk(st)):
-                    holder = st
-            expr, defst = nd, None
+                if isinstance(st, ast.stmt) and id(st) in order and any(x is c for x in ast.walk(st)):
+                    if holder is None or order[id(st)] > order[id(holder)]:
+                        holder = st  # the innermost statement comes last in depth-first order
+            at = order[id(holder)]
+            expr = nd
+            defs = []
             if isinstance(nd, ast.Name):
-                defst = reaching_assign(fi.node, holder, nd.id, pos)
-                expr = defst.value if defst is not None else None
-            mentions = expr is not None and any(isinstance(x, ast.Name) and x.id == kv.id for x in ast.walk(expr))
-            # in-place changes of the new vector after the nodes were taken
+                defs = [st for st in ast.walk(fi.node) if isinstance(st, ast.Assign) and id(st) in order and order[id(st)] < at and any(nd.id in _target_names(t) for t in st.targets)]
+                values = [st.value for st in defs]
+            else:
+                values = [nd]
+
+            def from_kv(e):
+                return any(isinstance(x, ast.Name) and x.id == kv.id for x in ast.walk(e))
+
+            def is_none(e):
+                return isinstance(e, ast.Constant) and e.value is None
+
+            stray = [v for v in values if not from_kv(v) and not is_none(v)]
+            mentions = bool(values) and not stray and any(from_kv(v) for v in values)
+            expr = stray[0] if stray else (values[0] if values else None)
+            # in-place changes / rebinding of the new vector after the nodes were taken
             late = []
-            if defst is not None:
+            first = min((order[id(st)] for st in defs if from_kv(st.value)), default=None)
+            if first is not None:
                 for st in ast.walk(fi.node):
-                    if isinstance(st, ast.AugAssign) and any(isinstance(x, ast.Name) and x.id == kv.id for x in ast.walk(st.target)) and defst.lineno < st.lineno < holder.lineno:
-                        late.append(st)
-                    if isinstance(st, ast.Assign) and any(kv.id in _target_names(t) for t in st.targets) and defst.lineno < st.lineno < holder.lineno:
-                        late.append(st)
+                    if not (isinstance(st, (ast.Assign, ast.AugAssign)) and id(st) in order and first < order[id(st)] < at):
+                        continue
+                    tgts = st.targets if isinstance(st, ast.Assign) else [st.target]
+                    for t in tgts:
+                        base = t
+                        while isinstance(base, (ast.Attribute, ast.Subscript)):
+                            base = base.value
+                        if isinstance(base, ast.Name) and base.id == kv.id and not (isinstance(t, ast.Name) and st in defs):
+                            late.append(st)
             ok = mentions and not late
             why = "" if ok else f"`{seg(expr, 50) if expr is not None else seg(nd, 30)}` is not computed from `{kv.id}`" if not mentions else f"`{kv.id}` is changed by `{seg(late[0], 40)}` after the nodes were taken"
             chk.ob(rule, f"{q}: the interpolation nodes of `{seg(c, 40)}` are the knots of `{kv.id}`", ok, loc=f"{fi.module}.py:{c.lineno}",
